@@ -539,13 +539,35 @@ def factory_closures_part(ctx):
                 ctx.violation("oracle", f"node wrapping Scaler({fct}).apply on x={x}: cached run returned {got}, the method computes {fct * x} "
                               f"(an entry written for the same method of ANOTHER object was served)", case={"factors": factors, "x": x})
                 break
-        # a cached mutable output handed to a mutating consumer
+        # closures capturing PLAIN OBJECTS (default repr = an address) that are created and dropped one after the other: a later
+        # object may sit at the address of an earlier one, which says nothing about what it is
+        class Model:
+            def __init__(self, w):
+                self.w = w
+
+        def make_m(model):
+            def score(x):
+                return model.w * x + 1
+            return FunctionNode(score, name="score", output_name="y", cache=True)
+        runner = SyncRunner(cache=InMemoryCache())
+        for w in [rng.randint(1, 5) for _j in range(rng.randint(3, 6))]:
+            got = runner.run(Graph([make_m(Model(w))]), {"x": x}).values
+            n += 1
+            if got != {"y": w * x + 1}:
+                ctx.violation("oracle", f"closure capturing Model(w={w}) on x={x}: cached run returned {got}, the function computes {w * x + 1} "
+                              f"(an entry written for a closure over ANOTHER object was served)", case={"x": x, "w": w})
+                break
+        # a cached mutable output handed to a mutating consumer (a plain list, or a list held by a tuple / dict)
+        wrap_kind = rng.choice(["list", "tuple", "dict", "nested_tuple"])
+
         def mk_list(nn):
-            return list(range(nn))
+            base_ = list(range(nn))
+            return {"list": base_, "tuple": (base_, nn), "dict": {"rows": base_}, "nested_tuple": ((base_,), "x")}[wrap_kind]
 
         def consume(lst):
-            lst.append(99)
-            return sum(lst)
+            inner_ = {"list": lambda v: v, "tuple": lambda v: v[0], "dict": lambda v: v["rows"], "nested_tuple": lambda v: v[0][0]}[wrap_kind](lst)
+            inner_.append(99)
+            return sum(inner_)
         G = Graph([FunctionNode(mk_list, name="mk_list", output_name="lst", cache=True), FunctionNode(consume, name="consume", output_name="s")])
         r2 = SyncRunner(cache=InMemoryCache())
         nn = rng.randint(1, 4)
@@ -554,8 +576,8 @@ def factory_closures_part(ctx):
             got = r2.run(G, {"nn": nn}).values["s"]
             n += 1
             if got != want:
-                ctx.violation("oracle", f"run #{j + 1} with a cache: consume(lst) returned {got}, the uncached run {want} (the cached list is the object an "
-                              f"earlier consumer mutated)", case={"nn": nn, "run": j + 1})
+                ctx.violation("oracle", f"run #{j + 1} with a cache: consume(lst) returned {got}, the uncached run {want} (the cached list - held in a "
+                              f"{wrap_kind} - is the object an earlier consumer mutated)", case={"nn": nn, "run": j + 1, "container": wrap_kind})
                 break
     return n
 
